@@ -28,6 +28,9 @@ type c10Replay struct {
 	// Sibling: 1 / 2 = the same import list also holds, before / after the import under test, a second import that
 	// carries the very same token string and is correctly bound by it (added only when the token allows one)
 	Sibling int `json:"sibling_with_same_token,omitempty"`
+	// ImporterTimes: 1 = the importing account's own claims are long expired, 2 = not yet valid (time-check issues are
+	// recorded before the import is looked at; they must not hide a blocking issue recorded after them)
+	ImporterTimes int `json:"importer_validity,omitempty"`
 }
 
 // indepActivation: the harness's own reading of an activation token (no library decoder involved):
@@ -117,6 +120,12 @@ func evalC10(c *Ctx, rp c10Replay) {
 	imp := &jwt.Import{Name: "i", Subject: jwt.Subject(rp.Subject), Account: rp.Exporter, Type: jwt.ExportType(rp.Type), To: jwt.Subject(rp.To), Token: rp.Token}
 	ac := jwt.NewAccountClaims(rp.Importer)
 	ac.Issuer = kr.op[0]
+	switch rp.ImporterTimes {
+	case 1:
+		ac.Expires = 5
+	case 2:
+		ac.NotBefore = 1 << 40
+	}
 	if rp.Embedded {
 		ac.Exports.Add(&jwt.Export{Subject: "own.>", Type: jwt.Stream})
 		ac.Imports.Add(&jwt.Import{Subject: "other.stream", Account: kr.acct[4], Type: jwt.Stream})
@@ -196,7 +205,7 @@ func semContained(p, q string) bool {
 }
 
 func runC10(c *Ctx) {
-	c.Res.Rule = "every combination of satisfying/violating each of the five binding conditions (issuer = exporter directly or via issuer_account, addressed to the importer, same kind, granted subject contains the imported subject, token authentic) x signer {exporter identity, exporter signing key + issuer_account, operator + issuer_account} x layout {v2, v1} x random accounts / subjects / kinds / expiry, standalone and embedded in a rich account, alone and next to a second import of the same list that carries the same token string and is correctly bound by it; plus tampered tokens, non-activation tokens (user tokens; generic claims without a kind whose data section is shaped like a fitting activation) and garbage. Oracle: the import is non-blocking exactly when the harness's own reading of the token (own header/payload parser, own nkey decoder, crypto/ed25519) satisfies all conditions; semantic containment is decided independently. non-trivial = distinct (import, token) pairs."
+	c.Res.Rule = "every combination of satisfying/violating each of the five binding conditions (issuer = exporter directly or via issuer_account, addressed to the importer, same kind, granted subject contains the imported subject, token authentic) x signer {exporter identity, exporter signing key + issuer_account, operator + issuer_account} x layout {v2, v1} x random accounts / subjects / kinds / expiry, standalone and embedded in a rich account, in an importing account that is itself expired / not yet valid or neither, alone and next to a second import of the same list that carries the same token string and is correctly bound by it; plus tampered tokens, non-activation tokens (user tokens; generic claims without a kind whose data section is shaped like a fitting activation) and garbage. Oracle: the import is non-blocking exactly when the harness's own reading of the token (own header/payload parser, own nkey decoder, crypto/ed25519) satisfies all conditions; semantic containment is decided independently. non-trivial = distinct (import, token) pairs."
 	rng = rngT{c.R}
 	subjects := []struct{ imported, grantOK, grantBad string }{
 		{"foo.bar", "foo.>", "foo.baz"}, {"foo.bar", "foo.bar", "foo"}, {"a.*", "a.*", "a.b"}, {"a.*.c", "a.>", "b.>"},
@@ -305,7 +314,7 @@ func runC10(c *Ctx) {
 							tok, note = "garbage."+tok[:20], "garbage"
 						}
 					}
-					rp := c10Replay{importer, exporter, typ, imported, to, tok, c.R.Bool(), fmt.Sprintf("%s:mask=%d:signer=%d:%s", note, mask, signer, layout), genuine, 0}
+					rp := c10Replay{importer, exporter, typ, imported, to, tok, c.R.Bool(), fmt.Sprintf("%s:mask=%d:signer=%d:%s", note, mask, signer, layout), genuine, 0, 0}
 					rp.Note = note + ":" + layout
 					evalC10(c, rp)
 					if actType == 1 {
@@ -313,6 +322,9 @@ func runC10(c *Ctx) {
 						rp2.Sibling = 1 + c.R.Intn(2)
 						evalC10(c, rp2)
 					}
+					rp3 := rp
+					rp3.ImporterTimes = 1 + c.R.Intn(2)
+					evalC10(c, rp3)
 					if round == 0 && mask == 0 && signer == 0 && layout == "v2" {
 						c.Sample(rp)
 					}
